@@ -3,7 +3,8 @@
 From Coq Require Import List Arith Bool ZArith Ring Lia.
 From PV Require Import Base.Index Base.Perm Base.Sum Np.Array Model.Sparse Model.Repr Model.C08Kruskal Model.C09Als Model.C09Loop
   Proofs.C09Identity Proofs.C09Monotone Proofs.C09Scaling Proofs.C09LoopProofs Proofs.C09Reported Proofs.C09Norm
-  Proofs.C09NormalForm Proofs.C09NormalRun.
+  Proofs.C09NormalForm Proofs.C09NormalRun Proofs.C09FixSigns
+  Model.C02Spec Model.C02Dense Model.C02Kruskal Model.C02SpKernels Proofs.C02DenseProofs Proofs.C09Holders Model.C09Init Proofs.C09InitProofs.
 Import ListNotations.
 
 Section C09.
@@ -264,6 +265,181 @@ Theorem C09_run_total : forall tol p s0 m dofix, exists r, RUN tol p s0 m dofix 
 Proof. exact (@cpals_run_total St F sweep fit_mttkrp fit_innerprod fchange_lt fit0 arrange fixsigns). Qed.
 End C09book.
 
+(* ---- (5) wave 3: the sweep theorems over the PROVED mttkrp ALGORITHM models of C02 (Proofs/C09Holders.v) ----
+   `mk` = what the data object's mttkrp method computes: tensor.mttkrp (reshape / Khatri-Rao / matmul, three branches),
+   sptensor.mttkrp (accumulation over the stored entries), ktensor.mttkrp (Gram / Hadamard form), sumtensor.mttkrp (sum of the parts).
+   Oracles left: LAPACK's solve (A . Y = P on the matrices it is given) and the column scaling. *)
+Section C09code.
+Variable V : Type.
+Variables (v0 v1 : V) (vadd vmul vsub : V -> V -> V) (vopp : V -> V).
+Hypothesis Vring : ring_theory v0 v1 vadd vmul vsub vopp (@eq V).
+Variable isz : V -> bool.
+
+(* bridge: C02's defining sum with unit weights IS the MTTKRP of the denotation used by all C09 statements *)
+Theorem C09_mttkrp_bridge : forall (f : idx -> V) (s : shape) n (Us : list (@matrix V)) R x r,
+  n < length s -> length Us = length s -> x < nth n s 0 -> r < R ->
+  spec_mttkrp v0 v1 vadd vmul f s n (repeat v1 R) Us x r = mttkrp_den v0 v1 vadd vmul s f Us n x r.
+Proof. exact (spec_mttkrp_den V v0 v1 vadd vmul vsub vopp Vring). Qed.
+
+(* every holder class with a proved algorithm model: on every factor list of the right row counts (dense: the other factors have
+   R columns) the matrix returned by the holder's mttkrp algorithm is the MTTKRP matrix of the holder's denotation *)
+Theorem C09_holder_dense : forall R (X : dense V), wf_dense X -> 2 <= length (dshape X) ->
+  holder_ok V v0 v1 vadd vmul R (dshape X) (den_dense v0 X) (mk_dense V v0 vadd vmul R X) (good_dense V R).
+Proof. exact (holder_dense V v0 v1 vadd vmul vsub vopp Vring). Qed.
+Theorem C09_holder_sparse : forall R (S : sparse V), wf_sp isz S ->
+  holder_ok V v0 v1 vadd vmul R (sshape S) (den_sp v0 S) (mk_sparse V v0 v1 vadd vmul R S) (good_any V).
+Proof. exact (fun R => holder_sparse V v0 v1 vadd vmul vsub vopp Vring R isz). Qed.
+Theorem C09_holder_kruskal : forall R (K : ktensor V),
+  holder_ok V v0 v1 vadd vmul R (kshape K) (den_k v0 v1 vadd vmul K) (mk_kruskal V v0 vadd vmul R K) (good_any V).
+Proof. exact (holder_kruskal V v0 v1 vadd vmul vsub vopp Vring). Qed.
+(* sum tensor of tied parts (denotation, mttkrp function, side condition) *)
+Theorem C09_holder_sum : forall R (s : shape)
+    (parts : list ((idx -> V) * (list (@matrix V) -> nat -> @matrix V) * (list (@matrix V) -> nat -> Prop))),
+  Forall (fun p => holder_ok V v0 v1 vadd vmul R s (fst (fst p)) (snd (fst p)) (snd p)) parts ->
+  holder_ok V v0 v1 vadd vmul R s (den_sum v0 vadd (map (fun p => fst (fst p)) parts))
+            (mk_sum V v0 vadd R s (map (fun p => snd (fst p)) parts)) (fun U n => Forall (fun p => snd p U n) parts).
+Proof. exact (holder_sum V v0 v1 vadd vmul vsub vopp Vring). Qed.
+
+(* the factor updated last satisfies its normal equations w.r.t. the DENOTATION of the data when the sweep calls the holder's own
+   mttkrp algorithm, LAPACK returned A with A . Y = P for the Y, P it was given, and the scaling divided the columns *)
+Theorem C09_code_normal_eq : forall R (solve : @matrix V -> @matrix V -> @matrix V) (scale : nat -> @matrix V -> list V * @matrix V)
+    (s : shape) (X : idx -> V) mk good, holder_ok V v0 v1 vadd vmul R s X mk good ->
+  forall it st n, st_wf V R s st -> update_code_contract V v0 v1 vadd vmul R solve scale s mk good it st n ->
+  normal_eq v0 v1 vadd vmul s X n (st_U (als_update v0 v1 vadd vmul mk solve scale R it st n)) R
+    (fun j r => vmul (nth r (st_w (als_update v0 v1 vadd vmul mk solve scale R it st n)) v0)
+                     (mget v0 (nth n (st_U (als_update v0 v1 vadd vmul mk solve scale R it st n)) []) j r)).
+Proof. exact (code_normal_eq V v0 v1 vadd vmul). Qed.
+
+(* the reported residual from the matrix the holder's mttkrp RETURNED (saved in st_P), the new factor / weights and ktensor.norm's
+   own formula = ||X - M||^2 of the new state's model *)
+Theorem C09_code_reported_residual : forall R (solve : @matrix V -> @matrix V -> @matrix V) (scale : nat -> @matrix V -> list V * @matrix V)
+    (s : shape) (X : idx -> V) mk good, holder_ok V v0 v1 vadd vmul R s X mk good ->
+  forall it st n, st_wf V R s st -> n < length s -> good (st_U st) n ->
+  length (st_w (als_update v0 v1 vadd vmul mk solve scale R it st n)) = R ->
+  nrows (nth n (st_U (als_update v0 v1 vadd vmul mk solve scale R it st n)) []) = nth n s 0 ->
+  let st' := als_update v0 v1 vadd vmul mk solve scale R it st n in
+  let ip := iprod_saved v0 vadd vmul R (nth n s 0) (st_w st') (nth n (st_U st') []) (fun j r => mget v0 (st_P st') j r) in
+  vsub (vadd (normsq_den v0 vadd vmul s X) (knormsq_code V v0 vadd vmul (st_model st'))) (vadd ip ip)
+  = resid_den v0 vadd vmul vsub s X (st_den V v0 v1 vadd vmul st').
+Proof. exact (code_reported_residual V v0 v1 vadd vmul vsub vopp Vring). Qed.
+
+(* instances: dense data through tensor.mttkrp's algorithm, sparse data through sptensor.mttkrp's *)
+Theorem C09_normal_eq_dense : forall R (solve : @matrix V -> @matrix V -> @matrix V) (scale : nat -> @matrix V -> list V * @matrix V)
+    (X : dense V), wf_dense X -> 2 <= length (dshape X) ->
+  let mk := mk_dense V v0 vadd vmul R X in
+  forall it st n, st_wf V R (dshape X) st ->
+  update_code_contract V v0 v1 vadd vmul R solve scale (dshape X) mk (good_dense V R) it st n ->
+  normal_eq v0 v1 vadd vmul (dshape X) (den_dense v0 X) n (st_U (als_update v0 v1 vadd vmul mk solve scale R it st n)) R
+    (fun j r => vmul (nth r (st_w (als_update v0 v1 vadd vmul mk solve scale R it st n)) v0)
+                     (mget v0 (nth n (st_U (als_update v0 v1 vadd vmul mk solve scale R it st n)) []) j r)).
+Proof.
+  intros R solve scale X W HN. exact (code_normal_eq V v0 v1 vadd vmul R solve scale (dshape X) (den_dense v0 X) _ _
+    (holder_dense V v0 v1 vadd vmul vsub vopp Vring R X W HN)).
+Qed.
+Theorem C09_normal_eq_sparse : forall R (solve : @matrix V -> @matrix V -> @matrix V) (scale : nat -> @matrix V -> list V * @matrix V)
+    (S : sparse V), wf_sp isz S ->
+  let mk := mk_sparse V v0 v1 vadd vmul R S in
+  forall it st n, st_wf V R (sshape S) st ->
+  update_code_contract V v0 v1 vadd vmul R solve scale (sshape S) mk (good_any V) it st n ->
+  normal_eq v0 v1 vadd vmul (sshape S) (den_sp v0 S) n (st_U (als_update v0 v1 vadd vmul mk solve scale R it st n)) R
+    (fun j r => vmul (nth r (st_w (als_update v0 v1 vadd vmul mk solve scale R it st n)) v0)
+                     (mget v0 (nth n (st_U (als_update v0 v1 vadd vmul mk solve scale R it st n)) []) j r)).
+Proof.
+  intros R solve scale S W. exact (code_normal_eq V v0 v1 vadd vmul R solve scale (sshape S) (den_sp v0 S) _ _
+    (holder_sparse V v0 v1 vadd vmul vsub vopp Vring R isz S W)).
+Qed.
+End C09code.
+
+Section C09codeord.
+Variable V : Type.
+Variables (v0 v1 : V) (vadd vmul vsub : V -> V -> V) (vopp : V -> V).
+Hypothesis Vring : ring_theory v0 v1 vadd vmul vsub vopp (@eq V).
+Variable vle : V -> V -> Prop.
+Hypothesis le_refl : forall x, vle x x.
+Hypothesis le_trans : forall x y z, vle x y -> vle y z -> vle x z.
+Hypothesis le_add_nonneg : forall x y, vle v0 y -> vle x (vadd x y).
+Hypothesis add_nonneg : forall x y, vle v0 x -> vle v0 y -> vle v0 (vadd x y).
+Hypothesis sq_nonneg : forall x, vle v0 (vmul x x).
+
+(* the residual never increases from one iteration to the next with the holder's own mttkrp algorithm inside every sweep
+   (code-level contract at every visited state: side condition of the holder, LAPACK's A . Y = P, column scaling) *)
+Theorem C09_code_monotone : forall R (solve : @matrix V -> @matrix V -> @matrix V) (scale : nat -> @matrix V -> list V * @matrix V)
+    (s : shape) (X : idx -> V) mk good, holder_ok V v0 v1 vadd vmul R s X mk good ->
+  forall dims st k, st_wf V R s st -> iter_code_contract V v0 v1 vadd vmul R solve scale s mk good (S k) dims st ->
+  st_wf V R s (als_iter v0 v1 vadd vmul mk solve scale R (S k) dims st) /\
+  vle (resid_den v0 vadd vmul vsub s X (st_den V v0 v1 vadd vmul (als_iter v0 v1 vadd vmul mk solve scale R (S k) dims st)))
+      (resid_den v0 vadd vmul vsub s X (st_den V v0 v1 vadd vmul (als_iter v0 v1 vadd vmul mk solve scale R k dims st))).
+Proof.
+  intros R solve scale s X mk good Hok.
+  exact (code_monotone V v0 v1 vadd vmul vsub vopp Vring R solve scale s X mk good Hok vle le_refl le_trans le_add_nonneg add_nonneg sq_nonneg).
+Qed.
+End C09codeord.
+
+(* ---- (6) wave 3: sign fixing keeps the normal form (Proofs/C09FixSigns.v) ---- *)
+Section C09fix.
+Variable V : Type.
+Variables (v0 v1 : V) (vadd vmul vsub : V -> V -> V) (vopp vinv : V -> V).
+Hypothesis Vring : ring_theory v0 v1 vadd vmul vsub vopp (@eq V).
+Variables (nrm : list V -> V) (pos neg : V -> bool) (root : V -> V) (srt : list V -> list nat) (negcol : list V -> bool).
+Variable vle : V -> V -> Prop.
+Hypothesis vinv_r : forall x, x <> v0 -> vmul x (vinv x) = v1.
+Hypothesis pos_nz : forall x, pos x = true -> x <> v0.
+Hypothesis nrm_pos : forall l, pos (nrm l) = false -> Forall (fun y => y = v0) l.
+Hypothesis nrm_spec : forall l, vmul (nrm l) (nrm l) = dot v0 vadd vmul l l.
+Hypothesis neg_opp : forall x, neg x = true -> neg (vopp x) = false.
+Hypothesis srt_perm : forall l, is_perm (srt l) (length l).
+Hypothesis srt_desc : forall l r, S r < length l -> vle (nth (nth (S r) (srt l) 0) l v0) (nth (nth r (srt l) 0) l v0).
+
+(* ktensor.fixsigns() for EVERY Kruskal tensor and sign oracle: rank, shape and weights untouched, every column keeps its squared
+   2-norm, zero columns stay zero *)
+Theorem C09_fixsigns_columns : forall K : ktensor V,
+  let K' := k_fixsigns v0 v1 vmul vopp negcol K in
+  krank K' = krank K /\ kshape K' = kshape K /\ kweights K' = kweights K /\
+  forall n r, n < length (kfactors K) -> r < krank K ->
+    let c := col v0 (nth n (kfactors K) []) r in
+    let c' := col v0 (nth n (kfactors K') []) r in
+    dot v0 vadd vmul c' c' = dot v0 vadd vmul c c /\ (Forall (fun y => y = v0) c -> Forall (fun y => y = v0) c').
+Proof. exact (fixsigns_columns V v0 v1 vadd vmul vsub vopp Vring negcol). Qed.
+
+(* the model RETURNED by the loop machine is in normal form with sign fixing ON or OFF: rank and shape of the last iterate, unit-or-zero
+   columns, non-negative weights in descending order; every limit (0 included), printing interval, tolerance, start *)
+Theorem C09_normal_form_run_fix : forall (F : Type) (sweep : nat -> ktensor V -> ktensor V) (fit_mttkrp fit_innerprod : ktensor V -> F * F)
+    (fchange_lt : F -> F -> F -> bool) (fit0 : F) tol p s0 m dofix (r : result (ktensor V) F),
+  cpals_run sweep fit_mttkrp fit_innerprod fchange_lt fit0 (k_arrange v0 v1 vmul vopp vinv nrm pos neg root srt None)
+            (k_fixsigns v0 v1 vmul vopp negcol) tol p s0 m dofix = Some r ->
+  let last := iter_sweep sweep (length (r_trace r)) s0 in
+  kfactors last <> [] ->
+  (krank (r_state r) = krank last /\ kshape (r_state r) = kshape last) /\
+  (forall n q, n < length (kfactors last) -> q < krank last ->
+     let c := col v0 (nth n (kfactors (r_state r)) []) q in dot v0 vadd vmul c c = v1 \/ Forall (fun y => y = v0) c) /\
+  (forall q, q < krank last -> neg (nth q (kweights (r_state r)) v0) = false) /\
+  (forall q, S q < krank last -> vle (nth (S q) (kweights (r_state r)) v0) (nth q (kweights (r_state r)) v0)).
+Proof. exact (run_normal_form_fix V v0 v1 vadd vmul vsub vopp Vring negcol vinv nrm pos neg root srt vle
+                vinv_r pos_nz nrm_pos nrm_spec neg_opp srt_perm srt_desc). Qed.
+End C09fix.
+
+(* ---- (7) wave 3: init='random' over a captured random stream (Model/C09Init.v: the loop `for n in range(N): np.random.uniform(0, 1,
+   (shape[n], rank))` followed by ttb.ktensor(factor_matrices)) — every shape, rank and stream ---- *)
+Section C09init.
+Variable V : Type.
+Variables (v0 v1 : V).
+(* closed form of the start: entry (j, r) of the mode-n factor is number  R*(I_0+...+I_{n-1}) + j*R + r  of the stream (modes drawn in
+   the order 0..N-1 whatever dimorder / optdims are, row-major inside a factor) *)
+Theorem C09_init_random_entry : forall R (s : shape) (stream : list V) n j r, n < length s -> j < nth n s 0 -> r < R ->
+  mget v0 (nth n (kfactors (init_random v1 s R stream)) []) j r = nth (list_sum (firstn n s) * R + j * R + r) stream v0.
+Proof. exact (draw_entry V v0). Qed.
+(* rank, shape, unit weights, rows of R entries *)
+Theorem C09_init_random_shape : forall R (s : shape) (stream : list V), list_sum s * R <= length stream ->
+  (krank (init_random v1 s R stream) = R /\ kshape (init_random v1 s R stream) = s /\ kweights (init_random v1 s R stream) = repeat v1 R) /\
+  Forall (fun A => Forall (fun row => length row = R) A) (kfactors (init_random v1 s R stream)).
+Proof. intros R s stream H. split; [exact (init_random_shape V v1 R s stream H)|exact (proj2 (draw_shape V R s stream H))]. Qed.
+(* exact consumption: the flattened factors are the first R * sum(shape) numbers, the generator is left at the next one *)
+Theorem C09_init_random_consumes : forall R (s : shape) (stream : list V), list_sum s * R <= length stream ->
+  concat (map (@concat V) (kfactors (init_random v1 s R stream))) = firstn (list_sum s * R) stream /\
+  snd (draw_factors s R stream) = skipn (list_sum s * R) stream.
+Proof. exact (draw_consumes V). Qed.
+End C09init.
+
 Print Assumptions C09_fit_identity.
 Print Assumptions C09_fit_identity_sum.
 Print Assumptions C09_reported_residual.
@@ -286,6 +462,21 @@ Print Assumptions C09_maxiters0.
 Print Assumptions C09_run_total.
 Print Assumptions C09_bookkeeping_iters_all.
 Print Assumptions C09_bookkeeping_state_all.
+Print Assumptions C09_mttkrp_bridge.
+Print Assumptions C09_holder_dense.
+Print Assumptions C09_holder_sparse.
+Print Assumptions C09_holder_kruskal.
+Print Assumptions C09_holder_sum.
+Print Assumptions C09_code_normal_eq.
+Print Assumptions C09_code_reported_residual.
+Print Assumptions C09_normal_eq_dense.
+Print Assumptions C09_normal_eq_sparse.
+Print Assumptions C09_code_monotone.
+Print Assumptions C09_fixsigns_columns.
+Print Assumptions C09_normal_form_run_fix.
+Print Assumptions C09_init_random_entry.
+Print Assumptions C09_init_random_shape.
+Print Assumptions C09_init_random_consumes.
 
 (* non-vacuity: a concrete non-symmetric 3x2 rank-2 instance over Z, mode 1 *)
 Example C09_fit_identity_example :
@@ -370,4 +561,67 @@ Example C09_knorm_example :
   let K := mkK [2; -1]%Z [ [[1; 0]; [2; 1]; [0; 3]]; [[1; 2]; [-1; 1]] ]%Z in
   (knormsq_code Z 0%Z Z.add Z.mul K = normsq_den 0%Z Z.add Z.mul [3; 2]%nat (den_k 0%Z 1%Z Z.add Z.mul K) /\
    knormsq_code Z 0%Z Z.add Z.mul K = 82)%Z.
+Proof. vm_compute. split; reflexivity. Qed.
+
+(* non-vacuity of (5): a concrete non-symmetric 2x3x2 array held dense, sparse (unsorted stored order) and as a sum of both halves;
+   the three branches of tensor.mttkrp (n = 0, interior, last), rank 2: the algorithm models return the MTTKRP matrix of the denotation *)
+Example C09_holder_example :
+  let s := [2; 3; 2]%nat in
+  let X := mkDense s [1; -2; 3; 0; 5; 4; -1; 2; 0; 7; -3; 1]%Z in
+  let S := mkSp s [[1; 2; 1]; [0; 0; 0]; [1; 0; 1]; [0; 1; 0]]%nat [1; 1; 2; 3]%Z in
+  let U := [ [[1; 0]; [2; 1]]; [[1; 2]; [-1; 1]; [0; 3]]; [[2; 1]; [1; -1]] ]%Z in
+  (forall n, n < 3 -> mk_dense Z 0%Z Z.add Z.mul 2 X U n = mttkrp_mat 0%Z 1%Z Z.add Z.mul s (den_dense 0%Z X) U n 2) /\
+  (forall n, n < 3 -> mk_sparse Z 0%Z 1%Z Z.add Z.mul 2 S U n = mttkrp_mat 0%Z 1%Z Z.add Z.mul s (den_sp 0%Z S) U n 2) /\
+  mk_dense Z 0%Z Z.add Z.mul 2 X U 1 = [[-3; -4]; [20; -7]; [25; 3]]%Z /\
+  mk_sum Z 0%Z Z.add 2 s [mk_dense Z 0%Z Z.add Z.mul 2 X; mk_sparse Z 0%Z 1%Z Z.add Z.mul 2 S] U 1
+  = mttkrp_mat 0%Z 1%Z Z.add Z.mul s (den_sum 0%Z Z.add [den_dense 0%Z X; den_sp 0%Z S]) U 1 2.
+Proof.
+  intros s X S U. split; [|split; [|split]].
+  - intros n Hn. destruct n as [|[|[|n]]]; try lia; vm_compute; reflexivity.
+  - intros n Hn. destruct n as [|[|[|n]]]; try lia; vm_compute; reflexivity.
+  - vm_compute. reflexivity.
+  - vm_compute. reflexivity.
+Qed.
+
+(* ... and the code-level contract is satisfiable: the 2x2 rank-1 update of C09_contract_example with tensor.mttkrp's algorithm as mk *)
+Example C09_code_contract_example :
+  let s := [2; 2]%nat in
+  let X := mkDense s [1; 3; 2; 1]%Z in
+  let mk := mk_dense Z 0%Z Z.add Z.mul 1 X in
+  let solve := fun (Y P : @matrix Z) => map (map (fun x => Z.div x (mget 0%Z Y 0%nat 0%nat))) P in
+  let scale := fun (_ : nat) (A : @matrix Z) => ([1%Z], A) in
+  let st := mkAls [1%Z] [ [[7]; [7]]; [[1]; [2]] ]%Z [] in
+  wf_dense X /\ st_wf Z 1%nat s st /\
+  iter_code_contract Z 0%Z 1%Z Z.add Z.mul 1 solve scale s mk (good_dense Z 1) 1 [0%nat] st /\
+  st_den Z 0%Z 1%Z Z.add Z.mul (als_iter 0%Z 1%Z Z.add Z.mul mk solve scale 1%nat 1%nat [0%nat] st) [1; 1]%nat = 2%Z.
+Proof.
+  intros s X mk solve scale st.
+  split; [reflexivity|]. split; [split; reflexivity|]. split; [|vm_compute; reflexivity].
+  split; [exact I|]. split; [|exact I].
+  split; [cbn; lia|]. split; [repeat constructor|].
+  split.
+  { intros j t Hj Ht. cbn in Hj. destruct t as [|t]; [|lia].
+    destruct j as [|[|j]]; [vm_compute; reflexivity | vm_compute; reflexivity | lia]. }
+  split; [reflexivity|]. split; [reflexivity|].
+  intros j r. cbn [fst snd scale].
+  destruct j as [|[|[|j]]]; destruct r as [|[|r]]; vm_compute; try reflexivity;
+    repeat (match goal with |- context [match ?x with _ => _ end] => destruct x end); reflexivity.
+Qed.
+
+(* non-vacuity of (6): sign fixing on a 2x2 / 2x2 rank-2 model whose first component has two negative columns (both flipped) and whose
+   second has one (left alone): squared column norms 5, 1 / 10, 13 before and after *)
+Example C09_fixsigns_example :
+  let negcol := fun l : list Z => Z.ltb (fold_right (fun x m => if Z.ltb (Z.abs m) (Z.abs x) then x else m) 0%Z l) 0 in
+  let K := mkK [3; 2]%Z [ [[-2; 1]; [1; 0]]; [[-3; -3]; [1; 2]] ]%Z in
+  let K' := k_fixsigns 0%Z 1%Z Z.mul Z.opp negcol K in
+  kfactors K' = [ [[2; 1]; [-1; 0]]; [[3; -3]; [-1; 2]] ]%Z /\
+  map (fun n => map (fun r => let c := col 0%Z (nth n (kfactors K') []) r in dot 0%Z Z.add Z.mul c c) [0; 1]%nat) [0; 1]%nat
+  = [[5; 1]; [10; 13]]%Z.
+Proof. vm_compute. split; reflexivity. Qed.
+
+(* non-vacuity of (7): a 2x3 rank-2 start drawn from the stream 1, 2, 3, ...: mode 0 takes numbers 1-4, mode 1 numbers 5-10 *)
+Example C09_init_random_example :
+  init_random 1%Z [2; 3]%nat 2 [1; 2; 3; 4; 5; 6; 7; 8; 9; 10; 11; 12]%Z
+  = mkK [1; 1]%Z [ [[1; 2]; [3; 4]]; [[5; 6]; [7; 8]; [9; 10]] ]%Z /\
+  snd (draw_factors [2; 3]%nat 2 [1; 2; 3; 4; 5; 6; 7; 8; 9; 10; 11; 12]%Z) = [11; 12]%Z.
 Proof. vm_compute. split; reflexivity. Qed.
